@@ -24,7 +24,8 @@ Models == {"Org", "Author", "Post", "Comment", "PostInfo", "AuthorInfo"}
 \* to-one relations: model -> name -> <<target model, fk column>>
 \* (Post.info and Author.info deliberately share their name and point to different tables)
 \* (Author.home is a second, NOT NULL key to Org: a mandatory hop behind the nullable hop Post.author)
-ToOne == [ Author |-> [ org |-> <<"Org", "org">>, info |-> <<"AuthorInfo", "info">>, home |-> <<"Org", "home">> ],
+\* (Author.boss is self-referential: boss/boss/boss/name passes the same model three times)
+ToOne == [ Author |-> [ org |-> <<"Org", "org">>, info |-> <<"AuthorInfo", "info">>, home |-> <<"Org", "home">>, boss |-> <<"Author", "boss">> ],
            Post |-> [ author |-> <<"Author", "author">>, info |-> <<"PostInfo", "info">> ],
            PostInfo |-> [ none_ |-> <<"PostInfo", "none_">> ],
            AuthorInfo |-> [ none_ |-> <<"AuthorInfo", "none_">> ],
